@@ -32,6 +32,7 @@ import os
 import re
 
 from ..common import rng_for
+from ..impl import livefile as LF
 from ..impl import c05_backend as B
 from ..impl import runner as R
 from ..impl import symhist as H
@@ -222,6 +223,31 @@ def w_scan(arg):
                 snaps.append(s)
                 secrets += snapshot_secrets(s, tree, note, mt)
             secrets.append(('path', str(w.src).encode(), False))
+            # ---- a snapshot during which one file vanishes / can no longer be opened / changes (between the collection of files and its
+            #      read): whatever the command then does — fail, skip the file, record what it read — nothing of the tree may be at rest in clear
+            live = None
+            if r.random() < 0.6:
+                names = ['delta-%08x' % r.getrandbits(32), 'eps-%08x/zeta-%08x.ods' % (r.getrandbits(32), r.getrandbits(32)), 'eta-%08x' % r.getrandbits(32)]
+                tree = {nm: r.choice(blocks) + r.randbytes(r.choice([3, 9, 40 + k])) for k, nm in enumerate(names)}
+                note = 'note-%016x' % r.getrandbits(64)
+                mt = {nm: 1_700_000_000_000_000_000 + r.randrange(10 ** 17) for nm in tree}
+                victim = r.choice(names)
+                how = r.choice(['vanishes', 'denied', 'denied', 'rewritten'])
+                newc = None if how == 'vanishes' else LF.DENY if how == 'denied' else r.randbytes(len(tree[victim]) + r.choice([-2, 0, 30]))
+                secrets += snapshot_secrets(None, tree, note, mt, part='inputs')
+                if isinstance(newc, bytes):
+                    secrets.append(('file-bytes', newc, True))
+                live = how
+                try:
+                    with LF.live_edit(w.src / victim, newc):
+                        s = w.snapshot(r.randrange(len(w.keys)), tree, note=note, mtimes=mt)
+                    live += ':completed'
+                    try:
+                        secrets += snapshot_secrets(s, {}, None, {}, part='results')
+                    except Exception:  # noqa: BLE001  (a result the checker cannot read is C14's business)
+                        pass
+                except Exception as e:  # noqa: BLE001
+                    live += ':' + type(e).__name__
             if snaps and r.random() < 0.5:
                 w.delete(snaps[0]['user'], [snaps[0]['name']])
             if r.random() < 0.5:
@@ -243,7 +269,7 @@ def w_scan(arg):
                               'snapshots': nsnap, 'secrets': len(secrets), 'searches': nsearch, 'observed_bytes': nhay, 'encryptions': len(calls)}
             res['nontrivial'] = nsnap >= 1 and any(s['note'] for s in snaps) and len(w.keys) >= 2 and all(len(s['files']) >= 2 for s in snaps)
             res['dist'] = ['scan:cipher:%s/%s' % ((cipher or {}).get('name'), (cipher or {}).get('key_bits')), 'scan:hash:%s' % ((hashing or {}).get('name'),),
-                           'scan:keys:%d' % len(w.keys)]
+                           'scan:keys:%d' % len(w.keys)] + (['scan:live-file:' + live] if live else [])
             res['counts'] = {'scan:searches': nsearch, 'scan:encryptions': len(calls), 'scan:observed-bytes': nhay}
     finally:
         adapters.AEADCipherAdapterMixin.encrypt = orig
